@@ -66,6 +66,8 @@ package store
 // ---- C12 / C11: transactional task deletion ---------------------------------------------------------
 //@ func DeleteTask
 //@   props C12 C11
+// the task ids of stored / running tasks were checked when the task was created (validCreateRequest) or were generated
+//@   trustpre WithLabelValues
 //@   requires factory != nil
 //@   ensures [no-delete-outside-the-transaction] directDeletes == old(directDeletes)
 //@   ensures [success-means-both-deleted-and-committed] err == nil ==> txnBegins == old(txnBegins) + 1 && txnDeletes == old(txnDeletes) + 2 && commitNilCalls == old(commitNilCalls) + 1 && commitErrCalls == old(commitErrCalls)
@@ -106,6 +108,8 @@ package store
 
 //@ func UpdateTaskState
 //@   props C11 C12 C06
+// the task ids of stored / running tasks were checked when the task was created (validCreateRequest) or were generated
+//@   trustpre WithLabelValues
 //@   requires taskInfoStore != nil
 //@   ensures [at-most-one-record-written] metaPuts == old(metaPuts) || metaPuts == old(metaPuts) + 1
 //@   ensures [error-writes-nothing-or-the-write-failed] err == nil ==> metaPuts == old(metaPuts) + 1
@@ -124,7 +128,15 @@ package store
 //@   ensures [op-entry-is-the-new-position-unless-frozen] metaPuts == old(metaPuts) + 1 && opPosition != nil ==> pChannelName in as(lastMetaPut, "*meta.TaskCollectionPosition").OpPositions && (as(lastMetaPut, "*meta.TaskCollectionPosition").OpPositions[pChannelName] == opPosition || as(lastMetaPut, "*meta.TaskCollectionPosition").OpPositions[pChannelName].Dropped)
 //@   ensures [record-names-the-task] metaPuts == old(metaPuts) + 1 ==> as(lastMetaPut, "*meta.TaskCollectionPosition").TaskID == taskID
 //@   ensures directDeletes == old(directDeletes) && txnDeletes == old(txnDeletes)
+// the record that is written back, compared with what was read from the store (after(Get, e): e when Get returned):
+// an entry that was marked dropped is the same entry afterwards, in all three tables, under whatever key it is stored
+//@   ensures [a-dropped-channel-entry-is-never-overwritten] metaPuts == old(metaPuts) + 1 ==> droppedKept(as(lastMetaPut, "*meta.TaskCollectionPosition"))
+// and updating the checkpoint of one channel changes only that channel's entry
+//@   ensures [entries-of-other-channels-are-untouched] metaPuts == old(metaPuts) + 1 ==> othersKept(as(lastMetaPut, "*meta.TaskCollectionPosition"), pChannelName)
 //@   panics never
+//@ spec wasRead(r *meta.TaskCollectionPosition) bool = after(Get, allocated(r) && r != nil)
+//@ spec droppedKept(r *meta.TaskCollectionPosition) bool = wasRead(r) ==> (forall k string :: {mget(r.Positions, k)} after(Get, k in r.Positions && r.Positions[k] != nil && r.Positions[k].Dropped) ==> r.Positions[k] == after(Get, r.Positions[k])) && (forall k string :: {mget(r.OpPositions, k)} after(Get, k in r.OpPositions && r.OpPositions[k] != nil && r.OpPositions[k].Dropped) ==> r.OpPositions[k] == after(Get, r.OpPositions[k])) && (forall k string :: {mget(r.TargetPositions, k)} after(Get, k in r.TargetPositions && r.TargetPositions[k] != nil && r.TargetPositions[k].Dropped) ==> r.TargetPositions[k] == after(Get, r.TargetPositions[k]))
+//@ spec othersKept(r *meta.TaskCollectionPosition, ch string) bool = wasRead(r) ==> (forall k string :: {mget(r.Positions, k)} k != ch ==> r.Positions[k] == after(Get, r.Positions[k])) && (forall k string :: {mget(r.OpPositions, k)} k != ch ==> r.OpPositions[k] == after(Get, r.OpPositions[k]))
 
 //@ func DeleteTaskCollectionPosition
 //@   props C12
